@@ -475,6 +475,7 @@ def divDischarge : List (Nat × Reason) := [
   (2008790857, .cfgOK),      -- LiveMPD: 3600 / *PeriodsPerHour                (CfgOK.periods)
   (691815320, .localGuard),  -- prevEntryStartMS: / uint64(se.mediaTimescale)    (after `se.mediaTimescale == 0` returns)
   (1976667801, .localGuard), -- prevEntryStartMS: % len(rep.Segments)            (after `len(rep.Segments) == 0` returns)
+  (693093759, .localGuard),  -- periodsStartAtSegmentStarts: step % r                (inside `for r != 0`)
   (3283230032, .assetLoad),  -- splitPeriod: / segDur
   (1962945513, .assetLoad),  -- splitPeriod: % SegmentDurMS
   (237660192, .assetLoad),   -- writeChunkedSegment: / MediaTimescale
